@@ -12,7 +12,7 @@ fn q(rec: &fai::Record, start1: usize) -> u64 {
     rec.query(iv).unwrap()
 }
 
-// @verif prop=C11 id=O11.1/kani-small tier=quick unwind=3 timeout=900 bound="fai geometries with line_bases <= 255, line_width <= 511 (>= line_bases), position < 2^32 and 1-based starts < 2^16, through the PUBLIC Record::query: offset(1) = position; offset(s+1)-offset(s) = 1 inside a line, 1+(line_width-line_bases) across a line end (cross-check of the MIR->SMT obligation that covers all u64 geometries)" fns="fai::Record::query,Interval::start"
+// @verif prop=C11 id=O11.1/kani-small tier=off off_reason="does not fit: two 64-bit divisions + remainders, >900 s in CBMC; the MIR->SMT obligation covers all u64 geometries" unwind=3 timeout=900 bound="fai geometries with line_bases <= 255, line_width <= 511 (>= line_bases), position < 2^32 and 1-based starts < 2^16, through the PUBLIC Record::query: offset(1) = position; offset(s+1)-offset(s) = 1 inside a line, 1+(line_width-line_bases) across a line end (cross-check of the MIR->SMT obligation that covers all u64 geometries)" fns="fai::Record::query,Interval::start"
 #[kani::proof]
 #[kani::unwind(3)]
 fn c11_fai_query_offset_induction_small_geometry() {
